@@ -517,6 +517,8 @@ theorem sound_neverReturned (mc : MonCfg) (tr : List Ev) (i : Nat) (h : monEnd m
     ¬ P_returned mc.c.n tr := by
   intro hP
   unfold monEnd at h
+  split at h
+  · cases h
   simp only at h
   cases hf : (List.range mc.c.n).find? (fun i => ((summ tr).snd i).isSome && ((summ tr).ret i).isNone) with
   | none => rw [hf] at h; cases h
